@@ -638,7 +638,9 @@ def valid_call(rng, fn=None, **gkw):
 # C11: the degenerate grammar. A valid call is turned into a malformed one by replacing some of its arguments.
 
 DEGENERATE_DTYPES = ['float16', 'complex64', 'complex128', 'object', 'U3', 'S2', 'datetime64[s]', 'timedelta64[s]', 'longdouble',
-                     [['a', 'i4'], ['b', 'f8']]]
+                     [['a', 'i4'], ['b', 'f8']],
+                     # non-native byte order: same type number as the native dtype, other bytes in memory
+                     '>i4', '>u2', '>f8', '>i8', '>f4', '>u4']
 EXTREME_SCALARS = [('zero', V(0)), ('neg1', V(-1)), ('neg-big', V(-(2 ** 31) - 1)), ('big31', V(2 ** 31 - 1)), ('big32', V(2 ** 31)),
                    ('big63', V(2 ** 63 - 1)), ('big64', V(2 ** 63)), ('big65', V(2 ** 64 + 1)), ('neg-huge', V(-(2 ** 64))),
                    ('frac', V(2.5)), ('neg-frac', V(-0.5)), ('nan', E("float('nan')")), ('inf', E("float('inf')")), ('neg-inf', E("float('-inf')")),
